@@ -162,16 +162,27 @@ def main(argv):
     known_counts = Counter()
     K_fail, O_fail = [], []
     # a property may be decided on several harnesses (e.g. connection task and manager): its parts
-    parts = getattr(prop, "parts", None) or [prop]
+    parts = list(getattr(prop, "parts", None) or [prop])
+    # thorough tier: parts that must also hold without overflow checks run against a release build of the harness
+    binp_release = None
+    if tier == "thorough" and hok:
+        extra = [rp for part in parts for rp in getattr(part, "release_parts", [])]
+        if extra:
+            rok, rout, binp_release = vlib.build_harness(release=True)
+            if rok:
+                parts += extra
+            else:
+                broken.append("release harness does not build: " + rout[-800:])
     for part in parts:
         part.known_classes = prop.known_classes
     if hok and models_ok:
         for part in parts:
+            binp_part = binp_release if getattr(part, "release", False) else binp
             cases = part.corpus() + part.gen(rng, tier)
             for c in cases:
                 c.part = part
                 dist[c.kind] += 1
-            r = run_correspondence(part, binp, cases, "main")
+            r = run_correspondence(part, binp_part, cases, "main")
             total += len(cases)
             if r["error"]:
                 broken.append(r["error"])
